@@ -526,7 +526,8 @@ func GenLog(r *rand.Rand, cfg WireCfg, gp GenParams, bases []uint32) *Log {
 	}
 	ts := uint32(1600000000 + r.Intn(1000))
 	nu := 1 + r.Intn(gp.MaxUnits)
-	f := &LogFile{Name: "mysql-bin.000001"}
+	scheme := r.Intn(4)
+	f := &LogFile{Name: logFileName(scheme, 0)}
 	if len(bases) > 0 {
 		f.Base = bases[0]
 	}
@@ -538,7 +539,7 @@ func GenLog(r *rand.Rand, cfg WireCfg, gp GenParams, bases []uint32) *Log {
 				continue
 			}
 			f.Units = append(f.Units, genUnit(r, k, tables, gp, &ts, cfg.Gtid))
-			f = &LogFile{Name: "mysql-bin." + fmt.Sprintf("%06d", len(l.Files)+1)}
+			f = &LogFile{Name: logFileName(scheme, len(l.Files))}
 			if len(bases) > len(l.Files) {
 				f.Base = bases[len(l.Files)]
 			}
@@ -549,6 +550,21 @@ func GenLog(r *rand.Rand, cfg WireCfg, gp GenParams, bases []uint32) *Log {
 	}
 	l.Layout()
 	return l
+}
+
+// logFileName: the name of the i-th file of a log (0-based). File names are opaque to a replica: they need not sort in the
+// order the master switches through them (the sequence number rolls over from 999999 to 1000000; RESET MASTER starts again
+// at 000001; the base name may change).
+func logFileName(scheme, i int) string {
+	switch scheme {
+	case 1: // sequence rollover
+		return "mysql-bin." + strconv.Itoa(999999+i)
+	case 2: // numbering restarted / descending
+		return fmt.Sprintf("mysql-bin.%06d", 9-i)
+	case 3: // the base name changes
+		return fmt.Sprintf("%s.%06d", []string{"zeta-bin", "alpha-bin", "mid-bin", "b", "a"}[i%5], i+1)
+	}
+	return fmt.Sprintf("mysql-bin.%06d", i+1)
 }
 
 // Tables returns every table announced anywhere in the log, by db.name.
